@@ -25,7 +25,10 @@ def _worker(task):
         mod = importlib.import_module(modname)
         prep = getattr(mod, opts['prep']) if opts.get('prep') else None
         t0 = time.time()
+        budget = float(os.environ.get('VERIF_HANDLER_BUDGET', '0') or 0) or (1800.0 if opts.get('unroll', 1) > 1 else 360.0)
+        I.deadline = t0 + budget
         paths = run_gcode(I, gcode, prep=prep)
+        I.deadline = None
         col = Collector(prop)
         col.extra['opts'] = {k: v for k, v in opts.items() if k in ('param_dups', 'plain')}
         getattr(mod, fnname)(col, gcode, paths, I)
@@ -80,7 +83,10 @@ def run_path_rules(ctx, modname, fnname, gcodes, **opts):
     per = {}
     for status, gcode, payload in results:
         if status != 'ok':
-            raise AnalysisError('handler %s: %s' % (gcode, payload))
+            # the other handlers' results (and the rules that follow) still count: a violation found elsewhere is reported,
+            # and only when nothing is found does the unfinished analysis fail the run (Ctx.finish)
+            ctx.deferred_errors.append('handler %s: %s' % (gcode, payload))
+            continue
         per[gcode] = per.get(gcode, 0) + payload.extra.get('abstract_paths', 0)
         merge_collector(ctx, payload)
     ctx.extra['paths_per_handler'] = per
